@@ -1856,8 +1856,8 @@ impl Server {
             let score = match &parts[i] {
                 RespFrame::BulkString(Some(bytes)) => {
                     match String::from_utf8_lossy(bytes).parse::<f64>() {
-                        Ok(n) => n,
-                        Err(_) => return Ok(RespFrame::error("ERR value is not a valid float")),
+                        Ok(n) if !n.is_nan() => n,
+                        _ => return Ok(RespFrame::error("ERR value is not a valid float")),
                     }
                 }
                 _ => return Ok(RespFrame::error("ERR invalid score format")),
@@ -2325,8 +2325,8 @@ impl Server {
         let increment = match &parts[2] {
             RespFrame::BulkString(Some(bytes)) => {
                 match String::from_utf8_lossy(bytes).parse::<f64>() {
-                    Ok(n) => n,
-                    Err(_) => return Ok(RespFrame::error("ERR value is not a valid float")),
+                    Ok(n) if !n.is_nan() => n,
+                    _ => return Ok(RespFrame::error("ERR value is not a valid float")),
                 }
             }
             _ => return Ok(RespFrame::error("ERR invalid increment format")),
@@ -2339,7 +2339,13 @@ impl Server {
         };
         
         // Increment score
-        let new_score = self.storage.zincrby(db, key, member, increment)?;
+        let new_score = match self.storage.zincrby(db, key, member, increment) {
+            Ok(score) => score,
+            Err(FerrousError::Command(crate::error::CommandError::InvalidFloatValue)) => {
+                return Ok(RespFrame::error("ERR resulting score is not a number (NaN)"));
+            }
+            Err(e) => return Err(e),
+        };
         
         // Return new score as bulk string (Redis protocol format)
         Ok(RespFrame::from_string(new_score.to_string()))
